@@ -51,7 +51,7 @@ def run_driver(drv, trace, safe, job):
     """drv: dict(template=<file under vf/replay>, vars={placeholder: python-expression over t (trace dict) and helper fns})"""
     tpl = open(os.path.join(HERE, "replay", drv["template"])).read()
     env = {"t": trace, "val": lambda name, d=0: _val(trace, name, d), "arr": lambda name, n=None: _arr(trace, name, n),
-           "job": job, "bytes_of": lambda prefix, n: _bytes_of(trace, prefix, n)}
+           "job": job, "bytes_of": lambda prefix, n: _bytes_of(trace, prefix, n), "rawbits": _rawbits}
     for ph, expr in drv["vars"].items():
         v = eval(expr, {}, env)
         tpl = tpl.replace("@" + ph + "@", str(v))
@@ -70,6 +70,25 @@ def run_driver(drv, trace, safe, job):
     out = (p.stdout + p.stderr)
     # convention: the driver exits 0 when the real code behaves as the contract says, non-zero (or sanitizer abort) otherwise
     return p.returncode != 0, "exit=%d\n%s" % (p.returncode, out)
+
+
+def _rawbits(trace, name):
+    """integer whose low bytes are the object representation of a scalar harness variable (ints directly, FP via struct)"""
+    import struct
+    v = trace.get(name)
+    s = str(v)
+    m = re.match(r"^(-?\d+)[uUlL]*$", s)
+    if m:
+        return int(m.group(1)) & 0xFFFFFFFFFFFFFFFF
+    try:
+        f = float(s.rstrip("fF"))
+    except ValueError:
+        f = float("nan") if "nan" in s.lower() else (float("inf") if "inf" in s.lower() else 0.0)
+        if s.strip().startswith("-") and f == f:
+            f = -f
+    if s.rstrip().endswith(("f", "F")):
+        return struct.unpack("<I", struct.pack("<f", f))[0]
+    return struct.unpack("<Q", struct.pack("<d", f))[0]
 
 
 def _num(s):
